@@ -137,11 +137,14 @@ func checkMessageBounds(m []byte) error {
 		fields = []int{16, 24}
 	case 3:
 		fields = []int{12, 20, 28, 36, 44}
-		// the session key field only exists when the payload starts behind it
-		lowest := uint32(len(m))
+		// the session key field is read when the lowest non-zero payload offset
+		// lies behind it (the parser's own rule, whatever the field lengths are)
+		lowest := uint32(9999)
 		for _, f := range fields {
-			if len(m) >= f+8 && binary.LittleEndian.Uint16(m[f:]) > 0 && binary.LittleEndian.Uint32(m[f+4:]) < lowest {
-				lowest = binary.LittleEndian.Uint32(m[f+4:])
+			if len(m) >= f+8 {
+				if o := binary.LittleEndian.Uint32(m[f+4:]); o > 0 && o < lowest {
+					lowest = o
+				}
 			}
 		}
 		if lowest > 52 {
@@ -156,6 +159,17 @@ func checkMessageBounds(m []byte) error {
 		offset := uint64(binary.LittleEndian.Uint32(m[f+4:]))
 		if size > 0 && offset+size > uint64(len(m)) {
 			return errors.New("NTLM message field points outside the message")
+		}
+		if binary.LittleEndian.Uint32(m[8:12]) != 3 {
+			continue
+		}
+		// the NTLMv2 response parser accepts 45 bytes and then slices [44:len-4]
+		if f == 20 && size < 48 {
+			return errors.New("NTLM authenticate message with a truncated NTLMv2 response")
+		}
+		// domain, user and workstation are decoded as UTF-16 two bytes at a time
+		if (f == 28 || f == 36 || f == 44) && size%2 != 0 {
+			return errors.New("NTLM authenticate message with an odd-length unicode field")
 		}
 	}
 	return nil
